@@ -1524,12 +1524,17 @@ def evaluate(ctx, c, status, ibs, mstatus, mbs, wf, exitc, ao, an, log, tally):
         - an edit of the very same object (e.g. a parameter added then removed);
         - a removal / re-kinding of the object itself, of an enclosing object or of a re-export leading to it (then only that is reported);
         - a removed / re-kinded name that is used as a base class somewhere (inherited routes change);
-        - a base removal on a class, for objects seen only through that class's inherited members (own members are unaffected)."""
+        - a base removal on a class, for objects seen only through that class's inherited members (own members are unaffected);
+        - a base removal anywhere, for objects that some class shows through inheritance (the MRO of subclasses may be reordered)."""
+        inherited_route = any(getattr(ao.objs[ao.index[a]], "inherited", False) for a in acc if a in ao.index)
         for x in metas:
             if x is m:
                 continue
             if x["class"] == "neutral":
                 return True
+            if x.get("expect") == "CLASS_REMOVED_BASE" and inherited_route:
+                return True      # a removed base anywhere may reorder the MRO of the classes that show this object through inheritance
+                                 # (what they show afterwards is judged by the class-view oracle, state by state)
             destructive = x.get("expect") in ("OBJECT_REMOVED", "OBJECT_CHANGED_KIND")
             if destructive and x["path"].rpartition(".")[2] in base_names:
                 return True
@@ -1775,6 +1780,15 @@ def scripted_cases(ctx):
                                              _mod("_pkg", [], True, subs=[_mod("core", [copy.deepcopy(top), b1, copy.deepcopy(b2), copy.deepcopy(lf)])])])
     metas = [{"edit": "override-change-value", "class": "incompatible", "path": "_pkg.core._B.v", "expect": "ATTRIBUTE_CHANGED_VALUE", "touched": []}]
     out.append(Case(ctx, fac(b1o), fac(b1n), metas, "scripted"))
+    # (4) thorough-tier alarm of the extension round: a removed base of a private mixin reorders the MRO of the public subclass, so the
+    # re-kinding of the mixin's member is no longer what the public class shows (Top.w is, with another value): judged state by state
+    top = _cls("Top", (), [_at("w", 2)])
+    m_ = _cls("M", ("Top",), [_at("size", 1)])
+    leaf = _cls("Base", ("M", "_Mix"))
+    metas = [{"edit": "remove-base", "class": "incompatible", "path": "pkg._Mix", "expect": "CLASS_REMOVED_BASE", "touched": []},
+             {"edit": "rekind-attr-to-func", "class": "incompatible", "path": "pkg._Mix.w", "expect": "OBJECT_CHANGED_KIND", "touched": []}]
+    out.append(Case(ctx, _mod("pkg", [top, m_, _cls("_Mix", ("Top",), [_at("w", None)]), leaf], True),
+                    _mod("pkg", [copy.deepcopy(top), copy.deepcopy(m_), _cls("_Mix", (), [_fn("w")]), copy.deepcopy(leaf)], True), metas, "scripted"))
     return out
 
 
